@@ -103,6 +103,7 @@ def register(reg):
                1: {"inv": ["True"]}, 2: {"inv": ["True"]}, 3: {"inv": ["True"], "modifies": ["have_match_for"]}},
     )
     _register_weight_table(reg)
+    _register_unicode_converter(reg)
 
 
 def _register_weight_table(reg):
@@ -142,3 +143,22 @@ def _register_weight_table(reg):
         sorts = [ast.unparse(n) for n in ast.walk(upd) if isinstance(n, ast.Call) and isinstance(n.func, ast.Attribute) and n.func.attr == "sort"]
         res.append(("dynamic-transitions-sorted-by-weight", sorts == ["state.dynamic.sort(key=lambda entry: entry[0].weight)"], str(sorts)))
         return res
+
+
+def _register_unicode_converter(reg):
+    """UnicodeConverter.__init__: the part regex carries the configured length bounds -- `string(minlength=a)`,
+    `string(minlength=a, maxlength=b)` and `string(length=n)` admit exactly the segments of those lengths (the regex is
+    what the state machine compiles; the declarative meaning of the rule is the one the arguments state)"""
+    UC = reg.model("UnicodeConverterM", cls="werkzeug/routing/converters.py:UnicodeConverter",
+                   fields={"regex": "str", "map": "opaque:map"})
+    reg.contract(
+        "werkzeug/routing/converters.py:UnicodeConverter.__init__", prop="C03,C04", self_model=UC,
+        params={"map": "opaque:map", "minlength": "int", "maxlength": "Optional[int]", "length": "Optional[int]"},
+        inline_callees=["werkzeug/routing/converters.py:BaseConverter.__init__"],
+        ensures=[
+            "implies(length is not None, self.regex == '[^/]{' + str(length) + '}')",
+            "implies(length is None and maxlength is None, self.regex == '[^/]{' + str(minlength) + ',}')",
+            "implies(length is None and maxlength is not None, self.regex == '[^/]{' + str(minlength) + ',' + str(maxlength) + '}')",
+        ],
+        raises={},
+    )
